@@ -28,3 +28,36 @@ func VerifC06_MACKey() {
 }
 
 func init() { vHarness["VerifC06_MACKey"] = VerifC06_MACKey }
+
+// The circuit-id key: MakeCircuitIDKey (what the control plane writes) and extract_circuit_id_fixed (what the XDP
+// program derives from the relayed request) agree byte for byte for every circuit-id of 1..32 arbitrary bytes.
+func VerifC06_CircuitIDKey() {
+	n := 1 + ndPick("cid-length-1", 32)
+	cid := ndBytes("cid", 32)[:n]
+	goKey := MakeCircuitIDKey(cid)
+	msg := make([]byte, 304)
+	copy(msg[236:240], []byte{0x63, 0x82, 0x53, 0x63})
+	opts := msg[240:]
+	opts[0], opts[1], opts[2] = 53, 1, 1
+	opts[3], opts[4], opts[5], opts[6] = 82, byte(2+n), 1, byte(n)
+	copy(opts[7:], cid)
+	if 7+n < 64 {
+		opts[7+n] = 255
+	}
+	if vBPFCallU64("dhcp_fastpath.probe", "verif_cid_found", msg, 0) == 0 {
+		// the program derives no key from this circuit-id (it then looks the client up by MAC): nothing to agree on
+		vReach("no-key")
+		return
+	}
+	for w := 0; w < 4; w++ {
+		cWord := vBPFCallU64("dhcp_fastpath.probe", "verif_cid_key_word", msg, uint64(w))
+		var gWord uint64
+		for i := 0; i < 8; i++ {
+			gWord |= uint64(goKey[w*8+i]) << (8 * i)
+		}
+		vAssert(cWord == gWord, "MakeCircuitIDKey and the eBPF program's extract_circuit_id_fixed derive different keys for the same circuit-id")
+	}
+	vReach("end")
+}
+
+func init() { vHarness["VerifC06_CircuitIDKey"] = VerifC06_CircuitIDKey }
